@@ -267,7 +267,7 @@ fn gen_case(rng: &mut Rng, thorough: bool) -> Case {
         2 => {
             // F16 shape: body-less pipeline against a socket that accepts nothing
             kind_name = "bodiless-blocked";
-            let n = if thorough { rng.range(100, 20000) } else { rng.range(50, 3000) } as usize;
+            let n = if thorough { rng.range(100, 8000) } else { rng.range(50, 2000) } as usize;
             for _ in 0..n {
                 items.push(Item::Req { h: 18, b: None });
                 handlers.push(vec![HAct::Respond(RespBody::None)]);
@@ -502,7 +502,7 @@ fn main() {
         run_one(id, case, fix21, &mut em);
     }
     if args.case.is_none() {
-        let n = args.n.unwrap_or(if args.thorough() { 1500 } else { 220 });
+        let n = args.n.unwrap_or(if args.thorough() { 900 } else { 150 });
         let mut rng = Rng::new(args.seed);
         for i in 0..n {
             let mut r = rng.fork();
